@@ -27,6 +27,9 @@ def source_texts(n):
     # variables, a sequence (GSUB), nested groups, several gradients -- every str-keyed set in the
     # compiler should have something to iterate over
     glyphs, _ = scenes.mk(L.full(scenes.DIMS, {"nglyphs": 3, "donor_paint": "opacity", "copy_paint": "var", "grp": "nested", "seqlen": 2, "where": "both"}))
+    # the third glyph stands for a 13-codepoint sequence: its joined name exceeds the 63 characters a feature file allows,
+    # so the compiler derives a short name for it -- in every process of the build anew
+    glyphs[2].cps = tuple([0x1F9D1] + [c for i in range(6) for c in (0x200D, 0x1F9D1 + i + 1)])
     out = [(f"emoji_u{'_'.join('%04x' % c for c in g.cps)}.svg", g.svg()) for g in glyphs]
     if n == 4:
         glyphs2, _ = scenes.mk(L.full(scenes.DIMS, {"outline": "quad", "nglyphs": 1}))
@@ -35,7 +38,7 @@ def source_texts(n):
 
 
 def fmt_flags(fmt):
-    f = [f"--color_format={fmt}", "--output_file=Font.ttf"]
+    f = [f"--color_format={fmt}", "--output_file=Font.ttf", "--keep_glyph_names"]  # names in the binary: more of the build is observable
     return f
 
 
@@ -116,7 +119,7 @@ def one_build(case):
             import toml
 
             t = w / "c.toml"
-            t.write_text(toml.dumps({"color_format": fmt, "output_file": "Font.ttf", "axis": {"wght": {"name": "Weight", "default": 400}},
+            t.write_text(toml.dumps({"color_format": fmt, "output_file": "Font.ttf", "keep_glyph_names": True, "axis": {"wght": {"name": "Weight", "default": 400}},
                                      "master": {"regular": {"style_name": "Regular", "position": {"wght": 400}, "srcs": sorted({str(f.parent / "*.svg") for f in files})}}}))
             flags, args = ([f"--build_dir={bd}"] if f"--build_dir={bd}" in flags else []), [str(t)]
         jobs = case.get("jobs")
